@@ -186,6 +186,9 @@ class StreamSession:
         except _TRANSPORT_ERRORS as exc:
             self._closed = True  # Bypass close() — transport is broken.
             raise RpcError("TransportError", f"Transport failed during stream exchange (read): {exc}", "") from exc
+        except Exception:
+            self._abort_after_callback_error()
+            raise
 
     def tick(self) -> AnnotatedBatch:
         """Send a tick batch (producer streams) and receive the output batch.
@@ -220,6 +223,21 @@ class StreamSession:
         except _TRANSPORT_ERRORS as exc:
             self._closed = True  # Bypass close() — transport is broken.
             raise RpcError("TransportError", f"Transport failed during stream tick (read): {exc}", "") from exc
+        except Exception:
+            self._abort_after_callback_error()
+            raise
+
+    def _abort_after_callback_error(self) -> None:
+        """Finish the stream after something other than the transport or the server failed.
+
+        Typically the caller's ``on_log`` callback raised while a response was
+        being read.  The response is then only half consumed; closing the
+        session (with the callback detached, so it cannot fail the drain too)
+        leaves the connection at a message boundary for the next call.
+        """
+        self._on_log = None
+        with contextlib.suppress(Exception):
+            self.close()
 
     def __iter__(self) -> Iterator[AnnotatedBatch]:
         """Iterate over output batches from a producer stream.
@@ -418,7 +436,21 @@ class _RpcProxy:
                     object.__setattr__(transport, "_stream_opened", True)
                 header = None
                 if info.header_type is not None:
-                    header = _read_stream_header(transport.reader, info.header_type, ipc_validation, on_log, ext_cfg)
+                    try:
+                        header = _read_stream_header(
+                            transport.reader, info.header_type, ipc_validation, on_log, ext_cfg
+                        )
+                    except (RpcError, *_TRANSPORT_ERRORS):
+                        raise
+                    except Exception:
+                        # The header stream itself was read to its end (see
+                        # _read_header_batch), so the server is now waiting for
+                        # the input stream: close the stream we will never hand
+                        # out, or the next request would be taken for its input.
+                        StreamSession(
+                            transport.writer, transport.reader, None, ipc_validation=ipc_validation, shm=shm
+                        )._abort_after_callback_error()
+                        raise
                 session = StreamSession(
                     transport.writer,
                     transport.reader,
